@@ -35,7 +35,7 @@ def load_known():
 
 def contract_oids(G):
     """obligations defined by the contract files (stable against edits of /repo)"""
-    return {oid: o for oid, o in G.obligations.items() if o['kind'] != 'call-requires'}
+    return {oid: o for oid, o in G.obligations.items() if o['kind'] != 'call-requires' and o.get('origin') != 'R12'}
 
 
 def lock_table(G):
@@ -113,7 +113,7 @@ def check_property(pid, tier, seed, shared=None):
     with open(LOCK) as f:
         lock = json.load(f)['obligations']
     mine = {oid: o for oid, o in G.obligations.items() if pid in o['tags']}
-    mine_contract = {oid for oid, o in mine.items() if o['kind'] != 'call-requires'}
+    mine_contract = {oid for oid, o in mine.items() if o['kind'] != 'call-requires' and o.get('origin') != 'R12'}
     locked = {oid for oid, tags in lock.items() if pid in tags}
     if not mine:
         print('UNDECIDED: no obligation carries property %s (vacuous check)' % pid)
